@@ -292,3 +292,49 @@ def r20_f(ctx):
                             'on a buffer of multi-character tokens a text length over-counts, and callers that move by the '
                             'result overshoot' % (repr(e.ret)[:50],), line=fd.node.lineno))
     return rr
+
+
+def r20_g(ctx):
+    """the non-moving operations are queries: they assign no field of the buffer themselves"""
+    m = model(ctx)
+    rr = RuleResult('R20.g', 'peek, indexing/slicing, hasNext, startswith, endswith, position and num_forward_until write no '
+                    'field of the buffer themselves (items are materialised only through __next__, whose net movement R20.a '
+                    'bounds): a query cannot leave state behind that a later operation reads', floor=7)
+    cls = m.cls
+    mutators = ('append', 'insert', 'pop', 'remove', 'clear', 'extend', 'sort', 'reverse', 'add', 'update', 'discard',
+                'setdefault', 'popitem', 'appendleft', 'popleft')
+    reads = {}
+    for name, fds in cls.methods.items():
+        for fd in fds:
+            for n in ast.walk(fd.node):
+                if isinstance(n, ast.Attribute) and isinstance(n.value, ast.Name) and n.value.id == 'self' \
+                        and isinstance(n.ctx, ast.Load):
+                    reads.setdefault(n.attr, set()).add(name)
+    for name in sorted({n for n, _k in NONMOVING}):
+        fd = _fd(m, name)
+        writes = []
+        for n in ast.walk(fd.node):
+            if isinstance(n, (ast.Assign, ast.AugAssign, ast.AnnAssign, ast.Delete)):
+                tg = n.targets if isinstance(n, (ast.Assign, ast.Delete)) else [n.target]
+                for t in tg:
+                    for e in (t.elts if isinstance(t, (ast.Tuple, ast.List)) else [t]):
+                        base = e.value if isinstance(e, ast.Subscript) else e
+                        if isinstance(base, ast.Attribute) and isinstance(base.value, ast.Name) and base.value.id == 'self':
+                            writes.append((n, base.attr))
+            elif isinstance(n, ast.Call) and isinstance(n.func, ast.Attribute) and n.func.attr in mutators \
+                    and isinstance(n.func.value, ast.Attribute) and isinstance(n.func.value.value, ast.Name) \
+                    and n.func.value.value.id == 'self':
+                writes.append((n, n.func.value.attr))
+            elif isinstance(n, ast.Call) and isinstance(n.func, ast.Name) and n.func.id == 'setattr' and n.args \
+                    and norm(n.args[0]) == 'self':
+                writes.append((n, norm(n.args[1]) if len(n.args) > 1 else '?'))
+        # the cursor field (save/restore, net movement decided by R20.a) and the queue (R20.d) have their own rules
+        writes = [(n, a) for n, a in writes if a not in (m.cursor_field, m.queue_field)]
+        live = [(n, a) for n, a in writes if reads.get(a, set()) - {'__init__'} or a not in reads]
+        rr.ob(not live, {'method': 'Buffer.%s' % name, 'field_writes': [a for _n, a in writes]})
+        for n, a in live:
+            rr.fail(Finding('R20.g', 'utils', fd.qual, n, 'the non-moving operation Buffer.%s writes the field %s, which %s '
+                            'read: what a later next/peek/hasNext answers depends on which queries were asked before'
+                            % (name, a, ', '.join(sorted(reads.get(a, {'other operations'}) - {'__init__'})) or 'other operations'),
+                            line=n.lineno))
+    return rr
